@@ -297,6 +297,14 @@ pub fn contexts(tier: Tier) -> Vec<Ctx> {
                 r: None,
             });
         }
+        // every compound assignment operator, on a variable, an array element at a constant and at an
+        // input-dependent index
+        for op in [BinOp::Add, BinOp::Sub, BinOp::Mul, BinOp::Div, BinOp::Rem, BinOp::BitXor, BinOp::BitAnd, BinOp::BitOr, BinOp::Shl, BinOp::Shr] {
+            out.push(Ctx { name: format!("n {}= m", op.sym()), stmts: vec![op_assign("n", vec![], op, m())], r: None });
+            out.push(Ctx { name: format!("a[1] {}= m", op.sym()), stmts: vec![op_assign("a", vec![Acc::Index(us(1))], op, m())], r: None });
+            out.push(Ctx { name: format!("a[i] {}= n", op.sym()), stmts: vec![op_assign("a", vec![Acc::Index(var("i"))], op, n())], r: None });
+            out.push(Ctx { name: format!("n {}= n", op.sym()), stmts: vec![op_assign("n", vec![], op, n()), op_assign("m", vec![], op, u8l(3))], r: None });
+        }
         // names shared by a constant, parameters and locals of different functions: a callee sees
         // the constants and its own parameters, never a name of its callers
         for (cn, e) in [
